@@ -240,12 +240,24 @@ structure Ext where
   continuous : List GoJob := []
   /-- `config.Server.MaxConnections` -/
   maxConnections : Int := 0
+  /-- `config.Server.MaxLineLength` -/
+  maxLineLength : Int := 1048576
   /-- whether an operation on the file system fails, given the operations that succeeded before it -/
   ioErr : List GoFOp → GoFOp → GoErr := fun _ _ => none
   /-- `os.Stat(path)` -/
   osStat : GoString → GoFileInfo × GoErr := fun _ => ({}, some [])
   /-- the rendered, ordered rows of `GroupSet.result` (the values of each row) -/
   rowValues : List (List GoString) := []
+
+/-- `io.EOF` -/
+def goEOF : GoErr := some [69, 79, 70]
+
+/-- `(*bufio.Reader).ReadByte` on a reader that is the bytes it has not delivered yet: the next byte and the rest, or
+    `io.EOF` (other read errors are not modelled) -/
+def goReadByte (r : GoString) : UInt8 × GoErr × GoString :=
+  match r with
+  | [] => (0, goEOF, [])
+  | b :: rest => (b, none, rest)
 
 /-- an operation on the world: it fails (and changes nothing) or it succeeds and joins the history -/
 def goEffect (ext : Ext) (hist : List GoFOp) (op : GoFOp) : List GoFOp × GoErr :=
